@@ -24,6 +24,8 @@ pub enum Start {
     BuiltDoc(Vec<Vec<(String, String)>>),
     /// a stand-alone paragraph built from pairs: 0 = From<Vec<(String,String)>>, 1 = FromIterator<(&str,&str)>, 2 = From<Vec<(&str,&str)>>
     BuiltPara(Vec<(String, String)>, u8),
+    /// Deb822::new() followed by k calls of add_paragraph(): k paragraphs without fields, filled by the history
+    Added(usize),
 }
 
 pub struct Case {
@@ -102,6 +104,11 @@ pub fn start_live(start: &Start) -> Result<(Live, Model), Failure> {
         Start::BuiltPara(pairs, how) => {
             let p = build_para(pairs, *how);
             Ok((Live { doc: None, standalone: Some(p), handles: vec![] }, vec![pairs.clone()]))
+        }
+        Start::Added(k) => {
+            let mut d = Deb822::new();
+            let handles: Vec<Paragraph> = (0..*k).map(|_| d.add_paragraph()).collect();
+            Ok((Live { doc: Some(d), standalone: None, handles }, vec![vec![]; *k]))
         }
     }
 }
@@ -328,10 +335,10 @@ impl PropImpl for C04 {
          with a comment, multi-line value, duplicate name or no final newline. Distinct by hash of (start, history).".into()
     }
     fn expected_labels(&self) -> Vec<&'static str> {
-        vec!["op:set-existing", "op:set-append", "op:insert", "op:remove-one", "op:remove-duplicates", "op:remove-absent", "op:rename-existing", "op:rename-absent", "start:parsed", "start:built-document", "start:built-paragraph", "start:has-comment", "start:no-final-newline", "start:duplicate-name", "uses-fresh-handles", "paragraph-emptied"]
+        vec!["op:set-existing", "op:set-append", "op:insert", "op:remove-one", "op:remove-duplicates", "op:remove-absent", "op:rename-existing", "op:rename-absent", "start:parsed", "start:built-document", "start:built-paragraph", "start:new-document-with-added-empty-paragraphs", "start:has-comment", "start:no-final-newline", "start:duplicate-name", "uses-fresh-handles", "paragraph-emptied"]
     }
     fn budget(&self, tier: Tier) -> Budget {
-        Budget { cases_per_lane: if tier == Tier::Quick { 10000 } else { 40_000 }, tape_max: 900, cpu_s: 10 }
+        Budget { cases_per_lane: if tier == Tier::Quick { 30000 } else { 120000 }, tape_max: 900, cpu_s: 10 }
     }
     fn spaces(&self, _tier: Tier) -> Vec<Space> {
         vec![Space { name: "all histories of length <= 3 over 28 operations on 12 start layouts".into(), size: HIST * LAYOUTS.len() as u64, exhaustive: true }]
@@ -351,8 +358,12 @@ impl PropImpl for C04 {
         Case { start, ops, old_handles }
     }
     fn decode(&self, _ctx: &mut Ctx, t: &mut Tape) -> Case {
-        let kind = t.below(5);
+        let kind = t.below(6);
         let (start, mut model): (Start, Model) = match kind {
+            5 => {
+                let k = t.range(1, 3);
+                (Start::Added(k), vec![vec![]; k])
+            }
             3 => {
                 let mut paras = vec![];
                 while t.more(paras.len(), 1, 3, 1, 2) {
@@ -423,6 +434,10 @@ impl PropImpl for C04 {
             Start::BuiltPara(p, _) => {
                 ctx.label("start:built-paragraph");
                 (p.iter().any(|x| x.1.contains('\n')), vec![p.clone()])
+            }
+            Start::Added(k) => {
+                ctx.label("start:new-document-with-added-empty-paragraphs");
+                (*k >= 2, vec![vec![]; *k])
             }
         };
         let mut changing = 0;
